@@ -1,6 +1,8 @@
 import PysphVerif.Driver.Common
 import PysphVerif.Model.Nnps
 import PysphVerif.Model.NnpsStore
+import PysphVerif.Model.NnpsZOrder
+import PysphVerif.Model.NnpsStrat
 /-!
 Line protocol for C01 (exact rationals):
 
@@ -11,7 +13,8 @@ answers one line
   `cs=<rat> hmin=<rat|none> P <d>:<s>:<l0>|<l1>|… P …`
 
 and `self …` (same arguments, meant for small inputs) additionally
-`grid=<ok|BAD> tree=<ok|BAD> cache=<ok|BAD> store=<ok|BAD>` after `hmin=`,
+`grid=<ok|BAD> tree=<ok|BAD> cache=<ok|BAD> store=<ok|BAD> zorder=<ok|BAD> strat=<ok|BAD>` after
+`hmin=`,
 
 with one `P` block per (destination array d, source array s) in row order
 `d*narrays+s`; `l_i` is the brute-force neighbour list of destination particle
@@ -24,9 +27,29 @@ by splitting the source array in index halves, `cache` for the cache model
 under a two-thread round-robin schedule, `store` for the five per-class storage
 models of `Model/NnpsStore.lean` (LinkedList head/next over flattened cells,
 BoxSort dense index, SpatialHash chains with table sizes 1 and 7, DictBoxSort,
-CellIndexing packed sorted keys with sufficient bit widths).
+CellIndexing packed sorted keys with sufficient bit widths), `zorder` for the z-order models of
+`Model/NnpsZOrder.lean` (ZOrderNNPS; ExtendedZOrderNNPS asymmetric with H = 2 and symmetric with
+H = 2, 3: shared cell ids, nbr_boxes rows with both passes, lengths, row walk), `strat` for the
+models of `Model/NnpsStrat.lean` (StratifiedHashNNPS with (levels, H) = (1,1), (2,1), (3,2) and
+table sizes 1 and 7; StratifiedSFCNNPS with 1, 2, 3 levels).
+
+  `zo maxkey=<n> H=<n> A c=<x:y:z,…|_> A …`
+
+runs the z-order bookkeeping on integer cells (computed by the harness with the same double
+operations as `find_cell_id_raw`) and answers, per array `a`, `K<a>=<sorted keys>`
+`C<a>=<cids by pid>` `P<a>=<pids, ascending inside every run of equal keys>`, then `maxcid=<n>`
+and per array `R<a>=<row of cid 0>|<row of cid 1>|…` (the found start indices before the first
+-1), to be compared with `get_keys / get_cids / get_pids / get_nbr_boxes` of the real object.
 
   `cell rs=<rat> tiny=<rat> H h=<rl> H h=<rl> …`  answers `cs=<rat> hmin=<rat|none>`.
+
+  `lev kind=<hash|sfc> rs=<rat> cs=<rat> hmin=<rat> eps=<rat> L=<n> H h=<rl> H h=<rl> …`
+
+answers `V <levels of the first array> V …` (`_` for an empty array): the level of every particle
+as `StratifiedHashNNPS._get_hash_id` / `StratifiedSFCNNPS._get_level` computes it, read in exact
+arithmetic on the exact values of the doubles (`eps` is the exact value of the double `EPS`); the
+harness compares the per-level counts with `count_particles` / `get_number_of_particles` of the
+real objects.
 
   `tree rs=<rat> T <node> S x=… y=… z=… h=… D x=… y=… z=… h=… D …`
 
@@ -132,6 +155,146 @@ def storeOk (rs cs : Rat) (o : Pt Rat) (arrs : List (List (Pt Rat))) (s : Nat) (
   decide (ll = want) && decide (box = want) && decide (sh1 = want) && decide (sh7 = want) &&
     decide (dict = want) && decide (ci = want)
 
+/-- componentwise largest cell of all particles (the cell of `xmax`) -/
+def zMaxKey (cs : Rat) (o : Pt Rat) (allp : List (Pt Rat)) : Nat :=
+  let cells := allp.map (cell3 Rat.floor cs o)
+  1 + zKey (maxInt (cells.map (·.1)), maxInt (cells.map (·.2.1)), maxInt (cells.map (·.2.2)))
+
+/-- the rows and lengths of source `s`, computed once and tabulated for the cell ids below
+`maxcid` (data, not a closure: the compiled code would otherwise recompute them per query) -/
+def zTables (maskLen maxcid : Nat) (zs : List ZArr) (nbrOf : ZArr → Cell → Nat → List Int)
+    (s : Nat) : Option (ZArr × Array (List Int) × Array Nat) :=
+  match zs[s]? with
+  | none => none
+  | some a =>
+    let rows := zRows maskLen zs s a (nbrOf a)
+    let lens := zLengths a
+    some (a, ((List.range maxcid).map rows).toArray, ((List.range maxcid).map lens).toArray)
+
+/-- the body of `zCandsGen` on the tabulated rows / lengths -/
+def zQuery (t : Option (ZArr × Array (List Int) × Array Nat)) (b : ZArr) (i : Nat) : List Nat :=
+  match t with
+  | none => []
+  | some (a, rowsA, lensA) => zCandsRow a (fun c => lensA.getD c 1) (rowsA.getD (b.cids i) [])
+
+/-- one z-order model (given by its box function) against brute force for all queries -/
+def zModelOk (rs : Rat) (arrs : List (List (Pt Rat))) (maskLen : Nat) (ins : List ZIn)
+    (nbrOf : List ZArr → Nat → ZArr → Cell → Nat → List Int)
+    (bfs : Nat → Nat → List (List Nat)) : Bool :=
+  let r := zBuild ins
+  let zs := r.1
+  (List.range arrs.length).all (fun s =>
+    let src := arrs.getD s []
+    let t := zTables maskLen r.2 zs (nbrOf zs s) s
+    (List.range arrs.length).all (fun d =>
+      let dst := arrs.getD d []
+      match zs[d]? with
+      | none => false
+      | some b =>
+        ((List.range dst.length).zip (dst.zip (bfs d s))).all (fun (i, q, bf) =>
+          decide (sortNat (nbrsOf rs src q (zQuery t b i)) = sortNat bf))))
+
+/-- the z-order models against brute force: ZOrderNNPS, ExtendedZOrderNNPS asymmetric (H = 2)
+and symmetric (H = 2, 3); plus the top-level functions themselves on one query -/
+def zorderOk (rs cs : Rat) (o : Pt Rat) (arrs : List (List (Pt Rat)))
+    (bfs : Nat → Nat → List (List Nat)) : Bool :=
+  let allp := arrs.flatMap id
+  let hs := arrs.map (fun a => hAtOf a)
+  let sub := fun (H : Nat) => cs / (H : Rat)
+  -- `zInOfPts Rat.floor c o sortPids` with the cells tabulated (the same function of `j`)
+  let insOf := fun (c : Rat) => arrs.map (fun arr =>
+    let z := zInOfPts Rat.floor c o sortPids arr
+    let cellsA := ((List.range arr.length).map z.cellAt).toArray
+    ({ n := z.n, cellAt := fun j => cellsA.getD j (0, 0, 0), pids := z.pids } : ZIn))
+  let mk1 := zMaxKey cs o allp
+  let mk2 := zMaxKey (sub 2) o allp
+  let mk3 := zMaxKey (sub 3) o allp
+  let mk := fun (c : Rat) => if c = cs then mk1 else if c = sub 2 then mk2 else mk3
+  let symOf := fun (H : Nat) (zs : List ZArr) (s : Nat) (a : ZArr) =>
+    zNbrSym Rat.ceil (mk (sub H)) H rs (sub H) (zs.zip hs) a (hs.getD s (fun _ => 0))
+  let z1 := zModelOk rs arrs 27 (insOf cs) (fun _ _ a c _ => zNbrIdx (mk cs) (maskZ 1) a c) bfs
+  let a2 := zModelOk rs arrs 125 (insOf (sub 2)) (fun _ _ a c _ => zNbrIdx (mk (sub 2)) (maskZ 2) a c) bfs
+  -- the symmetric box test evaluates the per-cell hmax tables for every mask entry: larger masks
+  -- only on smaller inputs
+  let s2 := if allp.length ≤ 18 then zModelOk rs arrs 125 (insOf (sub 2)) (symOf 2) bfs else true
+  let s3 := if allp.length ≤ 12 then zModelOk rs arrs 343 (insOf (sub 3)) (symOf 3) bfs else true
+  -- top level, one query: destination particle 0 of array 0 against the last array
+  let s := arrs.length - 1
+  let top := match (arrs.getD 0 [])[0]?, (bfs 0 s)[0]? with
+    | some q, some bf =>
+      let src := arrs.getD s []
+      let fin := fun (c : List Nat) => sortNat (nbrsOf rs src q c)
+      decide (fin (zOrderCands (mk cs) (insOf cs) s 0 0) = sortNat bf) &&
+      decide (fin (extZOrderAsymCands (mk (sub 2)) 2 (insOf (sub 2)) s 0 0) = sortNat bf) &&
+      decide (fin (extZOrderSymCands Rat.ceil (mk (sub 2)) 2 rs (sub 2) (insOf (sub 2)) hs s 0 0) =
+        sortNat bf) &&
+      decide (fin (extZOrderSymCands Rat.ceil (mk (sub 3)) 3 rs (sub 3) (insOf (sub 3)) hs s 0 0) =
+        sortNat bf)
+    | _, _ => true
+  z1 && a2 && s2 && s3 && top
+
+/-- the stratified models against brute force for all queries -/
+def stratOk (rs cs : Rat) (hm : Option Rat) (o : Pt Rat) (arrs : List (List (Pt Rat)))
+    (bfs : Nat → Nat → List (List Nat)) : Bool :=
+  let hmin := hm.getD 0
+  let pairs := (List.range arrs.length).flatMap (fun d => (List.range arrs.length).map (fun s => (d, s)))
+  let hashOk := fun (L H size : Nat) => pairs.all (fun (d, s) =>
+    let src := arrs.getD s []
+    ((arrs.getD d []).zip (bfs d s)).all (fun (q, bf) =>
+      decide (sortNat (nbrsOf rs src q (stratHashCands Rat.floor Rat.ceil (spatialHash size) rs cs hmin
+        (1 / 1000000) L H o src q)) = sortNat bf)))
+  let sfcOk := fun (L : Nat) =>
+    let ins := arrs.map (fun arr =>
+      let z := sInOfPtsFixed Rat.floor rs cs L o sortPids 64 arr
+      -- tabulated (same functions of the particle index)
+      let lv := ((List.range arr.length).map z.levelOf).toArray
+      let cl := (List.range L).map (fun k => ((List.range arr.length).map (z.cellAtL k)).toArray)
+      ({ n := z.n, levelOf := fun j => lv.getD j 0,
+         cellAtL := fun k j => (cl.getD k #[]).getD j (0, 0, 0), pids := z.pids } : SIn))
+    let hs := arrs.map (fun a => hAtOf a)
+    pairs.all (fun (d, s) =>
+      let src := arrs.getD s []
+      ((List.range (arrs.getD d []).length).zip ((arrs.getD d []).zip (bfs d s))).all (fun (i, q, bf) =>
+        decide (sortNat (nbrsOf rs src q (sfcCands Rat.ceil 64 L (sfcCell rs cs L) ins hs s d i)) =
+          sortNat bf)))
+  hashOk 1 1 7 && hashOk 2 1 1 && hashOk 3 2 7 && sfcOk 1 && sfcOk 2 && sfcOk 3
+
+def parseCell (s : String) : Option Cell :=
+  match s.splitOn ":" with
+  | [a, b, c] =>
+    match parseInt? a, parseInt? b, parseInt? c with
+    | some a, some b, some c => some (a, b, c)
+    | _, _, _ => none
+  | _ => none
+
+/-- pids in ascending order inside every run of equal keys (`std::sort` is not stable) -/
+def canonRuns (key : Nat → Nat) (pids : List Nat) : List Nat :=
+  let ks := runKeys (pids.map key)
+  ks.flatMap (fun k => sortNat (pids.filter (fun p => key p = k)))
+
+def handleZo (maxKey H : Nat) (cellss : List (List Cell)) : String :=
+  let ins : List ZIn := cellss.map (fun cells =>
+    { n := cells.length, cellAt := fun i => cells.getD i (0, 0, 0),
+      pids := sortPids (fun p => zKey (cells.getD p (0, 0, 0))) cells.length })
+  let r := zBuild ins
+  let zs := r.1
+  let per := (List.range zs.length).map (fun k =>
+    match zs[k]? with
+    | none => ""
+    | some a =>
+      "K" ++ toString k ++ "=" ++ showList showNat a.keys ++
+      " C" ++ toString k ++ "=" ++ showList showNat ((List.range a.n).map a.cids) ++
+      " P" ++ toString k ++ "=" ++ showList showNat (canonRuns a.key a.pids))
+  let rows := (List.range zs.length).map (fun k =>
+    match zs[k]? with
+    | none => ""
+    | some a =>
+      let rw := zRows ((2 * H + 1) ^ 3) zs k a (fun c _ => zNbrIdx maxKey (maskZ H) a c)
+      "R" ++ toString k ++ "=" ++ (if r.2 = 0 then "-" else "|".intercalate
+        ((List.range r.2).map (fun cid =>
+          showList (fun (x : Int) => toString x) ((rw cid).takeWhile (fun x => decide (0 ≤ x)))))))
+  " ".intercalate per ++ " maxcid=" ++ toString r.2 ++ " " ++ " ".intercalate rows
+
 def handleQ (self : Bool) (rs tiny : Rat) (arrs : List (List (Pt Rat))) : String :=
   let hss := arrs.map (fun a => a.map (·.h))
   let cs := cellSize rs tiny hss
@@ -161,6 +324,9 @@ def handleQ (self : Bool) (rs tiny : Rat) (arrs : List (List (Pt Rat))) : String
   let treeOk := res.all (fun r => r.2.2.2.2.1)
   let cacheOk := res.all (fun r => r.2.2.2.2.2.1)
   let storeOk := res.all (fun r => r.2.2.2.2.2.2)
+  let bfs := fun (d s : Nat) => (res.find? (fun r => r.1 = d && r.2.1 = s)).map (·.2.2.1) |>.getD []
+  let zoOk := if self then zorderOk rs cs o arrs bfs else true
+  let stOk := if self then stratOk rs cs hm o arrs bfs else true
   let blocks := res.map (fun (d, s, bf, _) =>
     "P " ++ toString d ++ ":" ++ toString s ++ ":" ++
       (if bf.isEmpty then "-" else "|".intercalate (bf.map (showList showNat))))
@@ -168,7 +334,9 @@ def handleQ (self : Bool) (rs tiny : Rat) (arrs : List (List (Pt Rat))) : String
     (if self then " grid=" ++ (if gridOk then "ok" else "BAD") ++
       " tree=" ++ (if treeOk then "ok" else "BAD") ++
       " cache=" ++ (if cacheOk then "ok" else "BAD") ++
-      " store=" ++ (if storeOk then "ok" else "BAD") else "") ++
+      " store=" ++ (if storeOk then "ok" else "BAD") ++
+      " zorder=" ++ (if zoOk then "ok" else "BAD") ++
+      " strat=" ++ (if stOk then "ok" else "BAD") else "") ++
     (if blocks.isEmpty then "" else " " ++ " ".intercalate blocks)
 
 mutual
@@ -234,6 +402,33 @@ def handle (line : String) : String :=
          "cs=" ++ showRat (cellSize rs tiny hss) ++ " hmin=" ++
            (match hminScaled rs hss with | some m => showRat m | none => "none")
        | _, _, _ => "bad-op")
+    else if cmd = "zo" then
+    (match groups "A" rest with
+     | [] => "bad-op"
+     | hd :: gs =>
+       let kv := kvs hd
+       match (lookup kv "maxkey") >>= parseNat?, (lookup kv "H") >>= parseNat?,
+             gs.mapM (fun g => (lookup (kvs g) "c") >>= parseList? parseCell) with
+       | some mk, some H, some cellss => handleZo mk H cellss
+       | _, _, _ => "bad-op")
+    else if cmd = "lev" then
+    (match groups "H" rest with
+     | [] => "bad-op"
+     | hd :: gs =>
+       let kv := kvs hd
+       match lookup kv "kind", (lookup kv "rs") >>= parseRat?, (lookup kv "cs") >>= parseRat?,
+             (lookup kv "hmin") >>= parseRat?, (lookup kv "eps") >>= parseRat?,
+             (lookup kv "L") >>= parseNat?,
+             gs.mapM (fun g => (lookup (kvs g) "h") >>= parseList? parseRat?) with
+       | some kind, some rs, some cs, some hmin, some eps, some L, some hss =>
+         if kind = "hash" then
+           " ".intercalate (hss.map (fun hs => "V " ++ showList showNat
+             (hs.map (stratLevel Rat.floor rs hmin (stratInterval cs hmin eps L)))))
+         else if kind = "sfc" then
+           " ".intercalate (hss.map (fun hs => "V " ++ showList showNat
+             (hs.map (sfcLevelOfFixed rs cs L))))
+         else "bad-op"
+       | _, _, _, _, _, _, _ => "bad-op")
     else if cmd = "tree" then
     (match groups "T" rest with
      | [hd, body] =>
